@@ -80,7 +80,8 @@ def mutate_graph(impl, rng, g):
             elif r < 0.65:
                 apriori.prune_unviable_and_unnecessary_nodes(g)
             elif r < 0.8 and g.nodes:
-                rng.choice(g.nodes).extras.update(rng.choice([{'k': 1}, {'pos': {'x': 1, 'y': -2}}, {'s': 'txt'}]))
+                rng.choice(g.nodes).extras.update(rng.choice([{'k': 1}, {'pos': {'x': 1, 'y': -2}}, {'s': 'txt'}, {'reward': 0}, {'seen': False},
+                                                               {'cost': 0.0}, {'note': ''}, {'l': []}, {'d': {}}, {'n': None}]))
             elif r < 0.9 and g.nodes:
                 rng.choice(g.nodes).tags = rng.choice([['x', 'y'], ['suppress'], []])
             elif g.nodes:
